@@ -2385,6 +2385,9 @@ public:
 					setinf(s);
 					return *this;
 				}
+				// any other payload is a NaN too: quiet when the quiet bit is set, signalling otherwise
+				setnan((rawFraction & ieee754_parameter<Real>::fmask & ieee754_parameter<Real>::qnanmask) ? NAN_TYPE_QUIET : NAN_TYPE_SIGNALLING);
+				return *this;
 			}
 			uint64_t raw{ s ? 1ull : 0ull };
 			raw <<= 31;
@@ -2425,6 +2428,9 @@ public:
 					setinf(s);
 					return *this;
 				}
+				// any other payload is a NaN too: quiet when the quiet bit is set, signalling otherwise
+				setnan((rawFraction & ieee754_parameter<Real>::fmask & ieee754_parameter<Real>::qnanmask) ? NAN_TYPE_QUIET : NAN_TYPE_SIGNALLING);
+				return *this;
 			}
 			// normal and subnormal handling
 			uint64_t raw{ s ? 1ull : 0ull };
@@ -2468,6 +2474,9 @@ public:
 					setinf(s);
 					return *this;
 				}
+				// any other payload is a NaN too: quiet when the quiet bit is set, signalling otherwise
+				setnan((rawFraction & ieee754_parameter<Real>::fmask & ieee754_parameter<Real>::qnanmask) ? NAN_TYPE_QUIET : NAN_TYPE_SIGNALLING);
+				return *this;
 			}
 			if (rhs == 0.0) { // IEEE rule: this is valid for + and - 0.0
 				setbit(nbits - 1ull, s);
